@@ -3,7 +3,8 @@ CONSTANTS
  Confs <- AliasConfs
  MaxCloses = 3
  MaxOps = 1
- KeyMode = "clean"
+ KeyMode = "resolve"
+ LockRefTgt = TRUE
  Eager = FALSE
 SPECIFICATION Spec
 INVARIANTS TypeOK LocksNonNeg LocksExact MarkIsReach FallbackPresent CopyKeeps
